@@ -6,6 +6,7 @@ import (
 	"slices"
 	"strings"
 	"sync"
+	"time"
 
 	"github.com/honeycombio/dynsampler-go"
 	"github.com/honeycombio/refinery/config"
@@ -109,6 +110,17 @@ func getSharedDynsamplerAndRecorder[ST dynsampler.Sampler, CT any](
 	r.RegisterMetrics(dynsamplerInstance)
 	s.sharedDynsamplers[dynsamplerKey] = sharedDynsamplerEntry{dynsampler: dynsamplerInstance, recorder: r}
 	return dynsamplerInstance, r
+}
+
+// dynsamplerInterval returns the interval to hand to dynsampler-go for a configured duration.
+// dynsampler starts a ticker with it (which panics for a non-positive interval) and its
+// throughput samplers refuse to start with less than a millisecond. The rules validator rejects
+// neither, so such a value is treated like an unset one: zero selects the sampler's default.
+func dynsamplerInterval(d config.Duration) time.Duration {
+	if time.Duration(d) < time.Millisecond {
+		return 0
+	}
+	return time.Duration(d)
 }
 
 // makeDynsamplerKey builds a dynsampler map key with a sorted copy of fieldList so that
